@@ -37,10 +37,9 @@ fn host_limit(err: &str, tname: &str) -> Option<&'static str> {
     if err.contains("nat overflow") || err.contains("int overflow") || err.contains("Cannot convert nat to i128") {
         return Some("128-bit-range");
     }
-    if err.contains("invalid length") && tname.contains(';') {
-        return Some("array-length");
-    }
-    if err.contains("Trailing value") && tname.contains(';') {
+    if tname.contains(';') {
+        // a fixed-size array anywhere in the target: a vector of another length is outside the property
+        // ("fixed-size arrays only with matching length"); the failure then surfaces in many forms
         return Some("array-length");
     }
     None
